@@ -291,6 +291,25 @@ def _single_exit(stmts, retvar, tail=True):
                 out.append(ast.copy_location(new, stmt))
                 return out
             raise _Unsupported('returns on some paths of an if only')
+        if isinstance(stmt, ast.Try) and tail and not _has_return(
+                stmt.body) and not _has_return(stmt.finalbody):
+            # try: A / except E: ...; return X / REST   ==
+            # try: A / except E: ...; r = X / else: REST  (REST was outside
+            # the try: in the else clause it is still not covered by the
+            # handlers)
+            handlers = []
+            for hdl in stmt.handlers:
+                hbody = list(hdl.body) + (
+                    [] if _terminates(hdl.body) else copy.deepcopy(rest))
+                handlers.append(ast.ExceptHandler(
+                    type=hdl.type, name=hdl.name,
+                    body=_single_exit(hbody, retvar) or [ast.Pass()]))
+            new = ast.Try(body=stmt.body, handlers=handlers,
+                          orelse=_single_exit(list(stmt.orelse) + rest,
+                                              retvar),
+                          finalbody=stmt.finalbody)
+            out.append(ast.copy_location(new, stmt))
+            return out
         if isinstance(stmt, ast.With) and last and tail:
             new = ast.With(items=stmt.items,
                            body=_single_exit(stmt.body, retvar) or
@@ -645,7 +664,7 @@ class _Inliner:
                     # leave or restart the loop by itself
                     yields = [n for n in ast.walk(fdef)
                               if isinstance(n, ast.Yield)]
-                    if len(yields) != 1 or _contains(
+                    if len(yields) > 6 or _contains(
                             ast.Module(body=stmt.body, type_ignores=[]),
                             (ast.Break, ast.Continue, ast.Return)):
                         return None
@@ -656,6 +675,7 @@ class _Inliner:
                 retvar = None if mode in ('expr', 'return', 'for',
                                           'list') else \
                     f'{fdef.name.strip("_")}_result{outer.counter}'
+                direct = None
                 body = copy.deepcopy(_strip_doc(fdef.body))
                 if mode == 'return':
                     # `return h(...)`: the returns of the helper ARE returns
@@ -687,7 +707,9 @@ class _Inliner:
                 # `for a, b in gen(): ...` with `yield x, y` in the helper:
                 # x and y ARE a and b
                 joined = {}
-                if mode == 'for':
+                if mode == 'for' and len([
+                        n for n in ast.walk(fdef)
+                        if isinstance(n, ast.Yield)]) == 1:
                     yval = next(n for n in ast.walk(fdef)
                                 if isinstance(n, ast.Yield)).value
                     src = yval.elts if isinstance(yval, ast.Tuple) else \
@@ -713,6 +735,15 @@ class _Inliner:
                                        f'{outer.counter}'
                 sub = _Subst(mapping, renames)
                 body = [sub.visit(s) for s in body]
+                if mode == 'assign' and len(stmt.targets) == 1 and all(
+                        isinstance(n, (ast.Name, ast.Tuple, ast.Store))
+                        for n in ast.walk(stmt.targets[0])):
+                    tnames = {n.id for n in ast.walk(stmt.targets[0])
+                              if isinstance(n, ast.Name)}
+                    inside = {n.id for b in pre + body for n in ast.walk(b)
+                              if isinstance(n, ast.Name)}
+                    if not tnames & inside:
+                        direct = stmt.targets[0]
                 if mode == 'for':
                     def splice(val):
                         head = []
@@ -735,7 +766,15 @@ class _Inliner:
                                     attr='append', ctx=ast.Load()),
                                 args=[val], keywords=[]))])
                 new = pre + body
-                if mode == 'assign':
+                if mode == 'assign' and direct is not None:
+                    # every `result = E` of the helper is `<targets> = E`
+                    for sub in [n for b in new for n in ast.walk(b)]:
+                        if isinstance(sub, ast.Assign) and len(
+                                sub.targets) == 1 and isinstance(
+                                    sub.targets[0], ast.Name) and \
+                                sub.targets[0].id == retvar:
+                            sub.targets = [copy.deepcopy(direct)]
+                elif mode == 'assign':
                     new.append(ast.Assign(
                         targets=stmt.targets,
                         value=ast.Name(id=retvar, ctx=ast.Load()),
@@ -777,7 +816,10 @@ class _Inliner:
                 elif isinstance(node, ast.Constant) and isinstance(
                         node.value, str) and node.value == hname:
                     refs += 1
-            if refs or re.search(r'\b%s\b' % re.escape(hname), self.foreign):
+            name_re = re.escape(hname)
+            if refs or re.search(
+                    r'(\.%s\b|\b%s\s*\(|import[^\n]*\b%s\b|[\'"]%s[\'"])'
+                    % (name_re, name_re, name_re, name_re), self.foreign):
                 continue
             holder = self.tree if kname is None else next(
                 n for n in ast.walk(self.tree)
@@ -788,6 +830,77 @@ class _Inliner:
                 holder.body.append(ast.Pass())
             removed += 1
         return removed
+
+
+def _fuse_iter_temps(tree):
+    '''x = <call>; for t in x: ...  ->  for t in <call>: ...   when x is
+    used nowhere else (a helper parameter bound to a generator call).'''
+    for func in [n for n in ast.walk(tree)
+                 if isinstance(n, ast.FunctionDef)]:
+        counts = {}
+        for node in ast.walk(func):
+            if isinstance(node, ast.Name):
+                counts[node.id] = counts.get(node.id, 0) + 1
+        for holder in ast.walk(func):
+            for fld in ('body', 'orelse', 'finalbody'):
+                block = getattr(holder, fld, None)
+                if not (isinstance(block, list) and block and isinstance(
+                        block[0], ast.stmt)):
+                    continue
+                idx = 0
+                while idx + 1 < len(block):
+                    one, two = block[idx], block[idx + 1]
+                    if isinstance(one, ast.Assign) and len(
+                            one.targets) == 1 and isinstance(
+                                one.targets[0], ast.Name) and isinstance(
+                                    one.value, ast.Call) and isinstance(
+                                        two, ast.For) and isinstance(
+                                            two.iter, ast.Name) and \
+                            two.iter.id == one.targets[0].id and \
+                            counts.get(two.iter.id) == 2:
+                        two.iter = one.value
+                        del block[idx]
+                        continue
+                    idx += 1
+    return tree
+
+
+def _split_tuple_assigns(tree):
+    '''a, b = (x, y)  ->  a = x; b = y   when no target is read by a later
+    right-hand side (same meaning, and every name keeps a definition of its
+    own for the rules that follow values through assignments).'''
+    for holder in ast.walk(tree):
+        for fld in ('body', 'orelse', 'finalbody'):
+            block = getattr(holder, fld, None)
+            if not (isinstance(block, list) and block and isinstance(
+                    block[0], ast.stmt)):
+                continue
+            out = []
+            for stmt in block:
+                if isinstance(stmt, ast.Assign) and len(stmt.targets) == 1 \
+                        and isinstance(stmt.targets[0], ast.Tuple) and \
+                        isinstance(stmt.value, ast.Tuple) and len(
+                            stmt.targets[0].elts) == len(stmt.value.elts) \
+                        and all(isinstance(t, ast.Name)
+                                for t in stmt.targets[0].elts):
+                    names = [t.id for t in stmt.targets[0].elts]
+                    safe = all(
+                        not any(isinstance(n, ast.Name) and n.id in
+                                names[:idx] for n in ast.walk(val))
+                        for idx, val in enumerate(stmt.value.elts))
+                    if safe:
+                        for tgt, val in zip(stmt.targets[0].elts,
+                                            stmt.value.elts):
+                            out.append(ast.copy_location(ast.Assign(
+                                targets=[tgt], value=val,
+                                lineno=stmt.lineno), stmt))
+                        continue
+                out.append(stmt)
+            setattr(holder, fld, out)
+        if isinstance(holder, ast.Try):
+            for hdl in holder.handlers:
+                pass
+    return tree
 
 
 class _Operators(ast.NodeTransformer):
@@ -850,9 +963,11 @@ def inline_source(src, foreign_text='', known=()):
             break
         total += inl.n_inlined
         inl.remove_unreferenced(inl.helpers())
+        _fuse_iter_temps(tree)
     if not total:
         return src, 0
     tree = _Operators().visit(tree)
+    tree = _split_tuple_assigns(tree)
     ast.fix_missing_locations(tree)
     new = ast.unparse(tree) + '\n'
     with warnings.catch_warnings():
